@@ -323,3 +323,68 @@ func TestC11LoginThenChange(t *testing.T) {
 	vlib.NT("c11ltc", "slow-default-set")
 	vlib.Class("login-then-change:slow-hash")
 }
+
+// TestC11SmallScope: exhaustive small scope — every ordered pair (and, sharded, every ordered triple) of operations from a
+// fixed alphabet on one upgradeable user, queued together while the dispatcher is parked, in both upgrade modes; each schedule
+// is run several times (select order) and its history, extended by sequential probes, must be linearizable.
+func TestC11SmallScope(t *testing.T) {
+	alphabet := []opSpec{
+		{Kind: "auth", User: "old1", PW: "old1pw"}, {Kind: "auth", User: "old1", PW: "NEW"}, {Kind: "auth", User: "old1", PW: "wrong"},
+		{Kind: "update", User: "old1", PW: "NEW"}, {Kind: "remove", User: "old1"}, {Kind: "add", User: "old1", PW: "NEW", Admin: true},
+		{Kind: "setadmin", User: "old1", Admin: true}, {Kind: "list"},
+	}
+	probes := []opSpec{{Kind: "auth", User: "old1", PW: "old1pw"}, {Kind: "auth", User: "old1", PW: "NEW"}, {Kind: "auth", User: "old1", PW: "NEW2"}, {Kind: "list"}, {Kind: "check"}}
+	var combos [][]int
+	for a := range alphabet {
+		for b := range alphabet {
+			combos = append(combos, []int{a, b})
+		}
+	}
+	triples := 0
+	for a := range alphabet {
+		for b := range alphabet {
+			for c := range alphabet {
+				if (a*64+b*8+c)%vlib.Scale(8) == vlib.Shard()%vlib.Scale(8) { // 1/8 of the triples per run in quick, all of them over 8 shards
+					combos = append(combos, []int{a, b, c})
+					triples++
+				}
+			}
+		}
+	}
+	n := 0
+	for _, mode := range []string{"", "local"} {
+		for _, combo := range combos {
+			c := schedCase{Mode: mode, Users: schedUsers, Steps: []step{{Kind: "park"}}}
+			var names []string
+			for k, idx := range combo {
+				op := alphabet[idx]
+				if op.PW == "NEW" && k > 0 && (op.Kind == "update" || op.Kind == "add") && combo[0] == idx {
+					op.PW = "NEW2" // two writers of the same kind use different passwords
+				}
+				c.Steps = append(c.Steps, step{Kind: "launch", Op: &op})
+				names = append(names, op.Kind+":"+op.PW)
+			}
+			c.Steps = append(c.Steps, step{Kind: "settle"})
+			for rep := 0; rep < 4; rep++ {
+				var out schedOutcome
+				n++
+				vlib.Eval()
+				if msg := bubble(t, func() string { out = runSchedule(c, probes); return "" }); msg != "" || out.Infra != "" {
+					t.Fatalf("VIOLATION C11: agent panicked / infra: %s %s", msg, out.Infra)
+				}
+				if out.Wedge != "" {
+					continue // C10's property
+				}
+				if bad, _ := linearize(initialState(), out.Results); bad >= 0 {
+					path := vlib.Violation(fmt.Sprintf("small-scope history not linearizable (mode=%q, ops %v)", mode, names), "TestC11SmallScope", map[string]any{"schedule": c, "history": out.Results})
+					t.Fatalf("VIOLATION C11: operations %v queued together (mode=%q): no order consistent with real time explains the responses:\n%s\nsaved: %s", names, mode, fmtHistory(out.Results), path)
+				}
+			}
+			vlib.NT("c11small", mode, strings.Join(names, ","))
+		}
+	}
+	vlib.SetExtra("small_scope_pairs_per_mode", int64(len(alphabet)*len(alphabet)))
+	vlib.AddExtra("small_scope_triples_this_run", int64(triples))
+	vlib.Class("small-scope-exhaustive-pairs")
+	vlib.Sample(map[string]any{"kind": "small scope", "alphabet": alphabet, "pairs": len(alphabet) * len(alphabet), "triples_this_run": triples, "schedules_run": n})
+}
